@@ -56,6 +56,9 @@ def generate(repo):
         for mn, c in arms:
             if c not in cd:
                 raise GenError(f"{rel}: from_str arm {mn} -> Self::{c} has no constant")
+        # mutually exclusive arms (pairwise distinct mnemonics, also ignoring case): canonical order, by value
+        if len({mn.lower() for mn, _ in arms}) == len(arms):
+            arms = sorted(arms, key=lambda e: cd[e[1]])
         out.append(f"Definition {low}_mnemonics : list (list N * N) :=")
         out.append("  [" + ";\n   ".join(f"({bytes_lit(mn)}, {ty.upper()}_{c}) (* {mn} *)" for mn, c in arms) + "].")
         out.append(f"Definition {low}_mnemonics_caseless : bool := {'true' if caseless else 'false'}.")
